@@ -246,6 +246,18 @@ def run(ctx):
             ctx.fail(case, 'seeded extraction of %d strings is not reproducible: %r vs %r' % (len(big), a, b))
         if st0 != st1:
             ctx.fail(case, 'the global random generator state differs after a seeded call on %d strings' % len(big))
+        # ---- the Series form of the same large input, with the seed: same expressions as the list form (default
+        #      options), and the global generator left as it was
+        import pandas as pd
+        want = rx.extract(list(big), seed=seed)
+        st2 = random.getstate()
+        got = rx.pdextract(pd.Series(list(big), dtype=object), seed=seed)
+        st3 = random.getstate()
+        ctx.bump('big_series_form')
+        if list(got) != list(want):
+            ctx.fail(dict(case, form='Series'), 'seeded pdextract of %d strings gives %r, the list form gives %r' % (len(big), got, want))
+        if st2 != st3:
+            ctx.fail(dict(case, form='Series'), 'the global random generator state differs after a seeded pdextract on %d strings' % len(big))
     ctx.cov['rule'] = ('multisets x options x dialect; unsampled sizes: shuffled / reversed / frequency-dictionary / '
                        'with-repeats variants must give the same list; sampled sizes (forced by Size, and > 4000 distinct '
                        'strings): seeded reproducibility, global generator state, generator call trace vs Prng.v')
